@@ -33,15 +33,16 @@ type vxC18NegCase struct {
 	Queries    int      `json:"queries"`
 	BodyLen    int      `json:"body_len"`
 	CompressResponses bool `json:"compress_responses"`
+	CompressReady     bool `json:"compress_ready,omitempty"` // the answer to STARTUP itself is compressed (as Cassandra does once STARTUP named an algorithm)
 }
 
 func TestVxC18Negotiation(t *testing.T) {
 	vx.Check(t, vx.Prop{
 		ID: "C18", Part: "TestVxC18Negotiation",
-		Rule: "configured compressor {none, snappy, lz4(independent codec behind the Compressor interface)} x SUPPORTED COMPRESSION {key absent, [], [snappy], [lz4], [lz4,snappy], [other], [SNAPPY]} x protocol 1..5 x responses compressed or not; 1..6 queries with statements of 0..3000 bytes; oracle at the node (independent decoder): OPTIONS and STARTUP never flagged; STARTUP carries COMPRESSION=name iff configured and advertised; every later request is flagged and compressed iff that, and decodes; queries succeed; an EVENT frame pushed by the node (compressed when responses are) is read and leaves every connection open; non-trivial = a configured compressor that is not advertised, or several advertised; distinct by the case",
+		Rule: "configured compressor {none, snappy, lz4(independent codec behind the Compressor interface)} x SUPPORTED COMPRESSION {key absent, [], [snappy], [lz4], [lz4,snappy], [other], [SNAPPY]} x protocol 1..5 x responses compressed or not (the READY / AUTHENTICATE answering STARTUP included or not); 1..6 queries with statements of 0..3000 bytes; oracle at the node (independent decoder): OPTIONS and STARTUP never flagged; STARTUP carries COMPRESSION=name iff configured and advertised; every later request is flagged and compressed iff that, and decodes; queries succeed; an EVENT frame pushed by the node (compressed when responses are) is read and leaves every connection open; non-trivial = a configured compressor that is not advertised, or several advertised; distinct by the case",
 		Draw: func(t *rapid.T) interface{} {
 			c := &vxC18NegCase{Proto: rapid.IntRange(1, 5).Draw(t, "proto"), Configured: rapid.SampledFrom([]string{"", "snappy", "lz4"}).Draw(t, "conf"),
-				Queries: rapid.IntRange(1, 6).Draw(t, "q"), BodyLen: rapid.SampledFrom([]int{0, 10, 300, 3000}).Draw(t, "len"), CompressResponses: rapid.Bool().Draw(t, "cresp")}
+				Queries: rapid.IntRange(1, 6).Draw(t, "q"), BodyLen: rapid.SampledFrom([]int{0, 10, 300, 3000}).Draw(t, "len"), CompressResponses: rapid.Bool().Draw(t, "cresp"), CompressReady: rapid.Bool().Draw(t, "cready")}
 			switch rapid.IntRange(0, 7).Draw(t, "adv") {
 			case 0:
 				c.NoKey = true
@@ -71,6 +72,7 @@ func TestVxC18Negotiation(t *testing.T) {
 			cl := vnode.NewCluster(vxSpecs(1, 1))
 			node := cl.Nodes()[0]
 			node.CompressResponses = c.CompressResponses
+			node.CompressReady = c.CompressReady
 			node.Supported = map[string][]string{"CQL_VERSION": {"3.4.4"}}
 			if !c.NoKey {
 				node.Supported["COMPRESSION"] = c.Advertised
